@@ -98,9 +98,11 @@ pub fn scenario_ban_purge(seed: u64, rep: &mut Report) {
 
 fn limiter_scenario(seed: u64, rep: &mut Report) {
     let mut rng = Rng::new(seed);
-    let burst = match rng.below(4) {
-        0 => 1,
-        1 => 1 + rng.below(4),
+    let burst = match rng.below(12) {
+        0..=2 => 1,
+        3..=5 => 1 + rng.below(4),
+        // "practically unlimited": more tokens than 32 bits can count
+        6 => (1u64 << 32) + rng.below(6),
         _ => 1 + rng.below(20),
     };
     let divisible = rng.chance(2, 3);
